@@ -46,6 +46,7 @@ type corsCase struct {
 		MaxAge int          `json:"maxAge"`
 		Hdrs   bool         `json:"hdrs"`
 		Expose bool         `json:"expose"`
+		Spell  string       `json:"spell"`
 	} `json:"cfg"`
 	Req struct {
 		Method string     `json:"method"`
@@ -106,15 +107,26 @@ func TestC19(t *testing.T) {
 				if cs.Cfg.Blank {
 					cfg.AllowOrigins = []string{" ", ""}
 				}
+				spell := func(s string) string {
+					switch cs.Cfg.Spell {
+					case "slash":
+						return s + "/"
+					case "upper":
+						return strings.ToUpper(s)
+					case "space":
+						return "  " + s + " "
+					}
+					return s
+				}
 				for _, e := range cs.Cfg.Exact {
-					cfg.AllowOrigins = append(cfg.AllowOrigins, e.String())
+					cfg.AllowOrigins = append(cfg.AllowOrigins, spell(e.String()))
 				}
 				for _, w := range cs.Cfg.Wild {
 					s := w.Scheme + "://*." + w.Host
 					if w.Port != "" {
 						s += ":" + w.Port
 					}
-					cfg.AllowOrigins = append(cfg.AllowOrigins, s)
+					cfg.AllowOrigins = append(cfg.AllowOrigins, spell(s))
 				}
 				if cs.Cfg.Fn {
 					cfg.AllowOriginsFunc = func(origin string) bool { return origin == "https://other.org" }
@@ -214,6 +226,8 @@ func TestC19(t *testing.T) {
 		expMA := ""
 		if cs.Ans.MaxAge > 0 {
 			expMA = fmt.Sprint(cs.Ans.MaxAge)
+		} else if cs.Ans.MaxAge < 0 {
+			expMA = "0"
 		}
 		if hdr("Access-Control-Max-Age") != expMA {
 			bad = append(bad, "Access-Control-Max-Age")
